@@ -74,6 +74,13 @@ func (p *prop) Generate(rng *core.Rand, tier string, emit func(string)) {
 	for i := 0; i < nSite/6; i++ {
 		emit(genRenameCase(rgl))
 	}
+	// ---- site addresses: ParseAddress byte-level, listener port of a site key through the adapter
+	for i := 0; i < nSort/8; i++ {
+		emit(genAddrCase(rgl))
+	}
+	for i := 0; i < nSite/6; i++ {
+		emit(genLnpCase(rgl))
+	}
 	// ---- `servers` option blocks → servers (which block applies, final names) vs model
 	for i := 0; i < nSite/3; i++ {
 		emit(genSoptsCase(rgl))
